@@ -240,10 +240,15 @@ class SuperSpeedStreamInEndpoint(Elaboratable):
                 packet_complete = (write_fill_count + 4 >= self._max_packet_size)
                 will_end_packet = packet_complete | in_stream.last
 
-                with m.If(in_stream.valid & will_end_packet):
+                # It's also possible that the word that ended our packet arrived while we were handling an ACK
+                # (e.g. a short final word, in the very cycle of the ACK). In that case, our write buffer is
+                # already complete -- and thus can't accept any more data.
+                already_complete = ~in_stream.ready
+
+                with m.If((in_stream.valid & will_end_packet) | already_complete):
 
                     # If we've just finished a packet, we now have data we can send!
-                    with m.If(packet_complete | in_stream.last):
+                    with m.If(packet_complete | in_stream.last | already_complete):
                         m.d.ss += [
 
                             # We're now ready to take the data we've captured and _transmit_ it.
